@@ -143,7 +143,10 @@ where
                     if i >= n {
                         break;
                     }
-                    f(i, &mut r);
+                    // a bug in the harness itself must not swallow what the other items observed
+                    if std::panic::catch_unwind(std::panic::AssertUnwindSafe(|| f(i, &mut r))).is_err() {
+                        r.inconclusive.push(format!("harness work item {} panicked outside a monitored call", i));
+                    }
                 }
                 r
             }));
